@@ -32,10 +32,16 @@ class Zygote:
     def run(self, job):
         self.p.stdin.write(json.dumps(job) + "\n")
         self.p.stdin.flush()
-        line = self.p.stdout.readline()
-        if not line:
-            return {"id": job.get("id"), "status": "harness_error", "error": "zygote died"}
-        return json.loads(line)
+        while True:
+            line = self.p.stdout.readline()
+            if not line:
+                return {"id": job.get("id"), "status": "harness_error", "error": "zygote died"}
+            try:
+                res = json.loads(line)
+            except ValueError:
+                continue  # stray output
+            if isinstance(res, dict) and "status" in res:
+                return res
 
     def close(self):
         try:
